@@ -135,13 +135,9 @@ def moduleFactoryFactory(factory):
             mod = ModuleType(name)
             objs = factory(baseModule, *args, **kwargs)
             mod.__dict__.update(objs)
-            if "name" not in moduleCache:
-                moduleCache[name] = {}
-            if "args" not in moduleCache[name]:
-                moduleCache[name][args] = {}
-            if "kwargs" not in moduleCache[name][args]:
-                moduleCache[name][args][kwargs_tuple] = {}
-            moduleCache[name][args][kwargs_tuple] = mod
+            # Never replace a level of the cache that is already there: it
+            # may hold entries other threads have just stored
+            moduleCache.setdefault(name, {}).setdefault(args, {})[kwargs_tuple] = mod
             return mod
 
     return moduleFactory
